@@ -33,7 +33,8 @@ CONSTANTS
   Spurious,       \* BOOLEAN: condition_variable::wait may wake up spuriously
   RecheckUnderLock,   \* TRUE = code as written: emptiness re-checked under the mutex before waiting
   NotifyAfterPush,    \* TRUE = code as written: notify_one after the push (FALSE: before it)
-  DrainRechecks       \* TRUE = code as written: the cancellation drain re-checks the queue under the mutex
+  DrainRechecks,      \* TRUE = code as written: the cancellation drain re-checks the queue under the mutex
+  DrainCountsAll      \* TRUE = code as written: the drain subtracts the number of drained completions (FALSE: one per wake-up, seed C06_8)
 
 VARIABLES
   pc,            \* engine thread: "top","launch","collect","decide","beforeWait","locked","waiting","woken",
@@ -131,7 +132,7 @@ DrainLocked ==
   /\ pc = "drainLocked"
   /\ IF (~DrainRechecks) \/ fin = {}
        THEN pc' = "drainWaiting" /\ UNCHANGED <<outstanding, fin, consumed>>
-       ELSE /\ outstanding' = outstanding - Cardinality(fin)
+       ELSE /\ outstanding' = outstanding - (IF DrainCountsAll THEN Cardinality(fin) ELSE 1)
             /\ consumed' = consumed \cup fin /\ fin' = {} /\ pc' = "drainTop"
   /\ mutex' = "free"
   /\ UNCHANGED <<didWork, tpc, cancelled, result>>
